@@ -23,6 +23,10 @@ PROP = {
             "walkItems_client", "walkedB_all", "viewOK_final"]],
     "components": [
         {"c": "e2e", "min_len": 1, "quick": {"n": 300, "exhaustive": True}, "thorough": {"n": 1500, "exhaustive": True, "seeds": 3}},
+        # the client receive path and the CLI display on arbitrary response streams (client/gnmi/client.go, client/cache.go,
+        # cli/cli.go are anchored here too; the surfaces' own theorems are C12's): among them the glob deletes that only a
+        # Reset or Remove of the collector's cache sends, which no single-session e2e scenario contains
+        {"c": "rx", "quick": {"n": 1200}, "thorough": {"n": 8000, "seeds": 2}},
     ],
     "pre": [steps_C01.facts_step],
     "extra": [steps_C01.wf_coverage, steps_C01.process_level],
